@@ -191,6 +191,52 @@ fn check_pair(dir: &Path, tag: u64, user: &str, pass: &str, form: &str, two_clie
     Ok(Cow::Owned(format!("ok:{form}:{cls}")))
 }
 
+/// one credentials file of look-alike user names: the authenticator accepts exactly the listed pairs
+/// (no user with another user's password) and the export for each name carries that user's own pair
+fn look_alike_file(dir: &Path, tag: &str, pairs: &[(String, String)]) -> Vec<Violation> {
+    let mut out = vec![];
+    let case = json!({"kind":"look-alike-usernames","pairs":pairs});
+    let hosts: Option<TlsHostsSettings> = toml::from_str(&fixtures_hosts_toml()).ok();
+    let text: String = pairs.iter().map(|(u, p)| format!("[[client]]\nusername = \"{u}\"\npassword = \"{p}\"\n")).collect();
+    let path = dir.join(format!("cred-alike-{tag}.toml"));
+    let _ = std::fs::write(&path, &text);
+    let settings_text = format!("listen_address = \"127.0.0.1:4443\"\ncredentials_file = \"{}\"\n[listen_protocols.http2]\n", path.display());
+    let parsed = super::guarded(|| toml::from_str::<Settings>(&settings_text));
+    let _ = std::fs::remove_file(&path);
+    let st = match parsed {
+        Err(p) => return vec![Violation::new("C13:credentials:panic:look-alike-usernames", p, case)],
+        Ok(Err(e)) => return vec![Violation::new("C13:credentials:rejected:look-alike-usernames", format!("a valid credentials file is rejected: {e}"), case)],
+        Ok(Ok(s)) => s,
+    };
+    let auth = RegistryBasedAuthenticator::new(st.get_clients());
+    let id = IdChain::empty();
+    for (u, p) in pairs {
+        for (u2, p2) in pairs {
+            let accepted = auth.authenticate(&Source::ProxyBasic(b64(u, p2).into()), &id) == Status::Pass;
+            if accepted != (u == u2) {
+                out.push(Violation::new(
+                    format!("C13:authenticator:{}:look-alike-usernames", if accepted { "accepts-other-pair" } else { "rejects-configured-pair" }),
+                    format!("the file lists {pairs:?}; user {u:?} with {u2:?}'s password {p2:?}: accepted={accepted}"),
+                    case.clone(),
+                ));
+            }
+        }
+        let Some(hosts) = hosts.as_ref() else { continue };
+        match super::guarded(|| trusttunnel::client_config::build(&u.to_string(), vec!["1.2.3.4:443".parse().unwrap()], st.get_clients(), hosts).compose_toml()) {
+            Err(pn) => out.push(Violation::new("C13:export:panic:look-alike-usernames", format!("exporting {u:?} panicked: {pn}"), case.clone())),
+            Ok(text) => match toml::from_str::<toml::Value>(&text) {
+                Err(e) => out.push(Violation::new("C13:export:invalid-toml:look-alike-usernames", format!("exported configuration is not valid TOML: {e}"), case.clone())),
+                Ok(v) => {
+                    if v["username"].as_str() != Some(u.as_str()) || v["password"].as_str() != Some(p.as_str()) {
+                        out.push(Violation::new("C13:export:differ:look-alike-usernames", format!("the file lists {pairs:?}; the export for {u:?} carries {:?}/{:?}, not {u:?}/{p:?}", v["username"], v["password"]), case.clone()));
+                    }
+                }
+            },
+        }
+    }
+    out
+}
+
 // ------------------------------------------------------------------------------------------------
 // (B) wizard -> endpoint
 // ------------------------------------------------------------------------------------------------
@@ -448,6 +494,28 @@ pub fn run(tier: Tier) -> i32 {
         rep.add("evaluations", 1);
     }
 
+    // look-alike user names are different users: for every rotation and direction of the file
+    {
+        let names: [(&str, &str); 6] = [("alice", "pw-lower"), ("Alice", "pw-capital"), ("ALICE", "pw-upper"), ("alice ", "pw-space"), ("alic", "pw-prefix"), ("alice2", "pw-longer")];
+        let mut files = 0u64;
+        for rot in 0..names.len() {
+            for rev in [false, true] {
+                let mut pairs: Vec<(String, String)> = names.iter().cycle().skip(rot).take(names.len()).map(|(u, p)| (u.to_string(), p.to_string())).collect();
+                if rev {
+                    pairs.reverse();
+                }
+                for v in look_alike_file(&dir, &format!("{rot}-{rev}"), &pairs) {
+                    rep.violation(v);
+                }
+                files += 1;
+            }
+        }
+        rep.add("evaluations", files);
+        rep.sub.push(json!({"sub":"look-alike-usernames","files":files,"completed":true,
+            "domain":"6 users whose names differ in ASCII case, a trailing space, one character less / more; all 6 rotations x 2 directions of the file; per file the 36 (user, password-of) combinations against the authenticator and the export for each name"}));
+        classes.insert("look-alike-usernames:ok".into());
+    }
+
     // (B) wizard round trip
     let wz_pairs: Vec<(String, String)> = {
         let mut v = vec![];
@@ -496,6 +564,13 @@ pub fn replay(case: &serde_json::Value) -> Result<(), Violation> {
     let r = match case["kind"].as_str() {
         Some("credentials") => check_pair(&dir, 0, case["user"].as_str().unwrap_or(""), case["password"].as_str().unwrap_or(""), match case["form"].as_str() { Some("literal") => "literal", Some("multiline-basic") => "multiline-basic", Some("multiline-literal") => "multiline-literal", _ => "basic" }, case["two_clients"].as_bool().unwrap_or(false)).map(|_| ()),
         Some("wizard") => wizard_roundtrip(&dir, 0, case["user"].as_str().unwrap_or(""), case["password"].as_str().unwrap_or("")).map(|_| ()),
+        Some("look-alike-usernames") => {
+            let pairs: Vec<(String, String)> = serde_json::from_value(case["pairs"].clone()).unwrap_or_default();
+            match look_alike_file(&dir, "replay", &pairs).into_iter().next() {
+                Some(v) => Err(v),
+                None => Ok(()),
+            }
+        }
         Some("startup") => startup_case(&dir, case["i"].as_u64().unwrap_or(0)).map(|_| ()),
         _ => Err(Violation::new("C13:machinery", "bad replay file", json!({}))),
     };
